@@ -84,7 +84,10 @@ fn case(srv: &mut Srv, seed: u64, res: &mut CaseResult) -> R<()> {
     let x1 = Scru128Id::from(x.to_u128() + 1);
     let y = Scru128Id::from(((base - 0x1000000) & !0xffffu128) | 0xffff);
     let y1 = Scru128Id::from(y.to_u128() + 1);
-    for id in [x, x1, y, y1] {
+    // ... and one pair whose increment carries out of the whole 32-bit entropy field of the id layout
+    let z = Scru128Id::from(((base - 0x3000000) & !0xffff_ffffu128) | 0xffff_ffff);
+    let z1 = Scru128Id::from(z.to_u128() + 1);
+    for id in [x, x1, y, y1, z, z1] {
         let f = Frame::builder("xs.context", ZERO_CONTEXT).id(id).build();
         let v = srv.call(json!({"op": "import", "frame": f}))?;
         if v.get("ok").is_none() {
@@ -92,7 +95,7 @@ fn case(srv: &mut Srv, seed: u64, res: &mut CaseResult) -> R<()> {
             return Ok(());
         }
     }
-    let ctxs: Vec<(Scru128Id, &str)> = vec![(ZERO_CONTEXT, "zero"), (a, "A"), (b, "B"), (x, "X"), (x1, "X+1"), (y, "Y"), (y1, "Y+1")];
+    let ctxs: Vec<(Scru128Id, &str)> = vec![(ZERO_CONTEXT, "zero"), (a, "A"), (b, "B"), (x, "X"), (x1, "X+1"), (y, "Y"), (y1, "Y+1"), (z, "Z"), (z1, "Z+1")];
     let label: BTreeMap<Scru128Id, &str> = ctxs.iter().cloned().collect();
     let topics = ["t", "ta", ""];
 
